@@ -526,12 +526,51 @@ class Interp(object):
             self.exec_toplevel(node, env, env.module)
         elif t is ast.FunctionDef:
             env.vars[node.name] = SFunc(node, env.module, env)
+        elif t is ast.AnnAssign:
+            if node.value is not None:
+                v = yield from self.ev(node.value, env)
+                yield from self.assign(node.target, v, env)
+        elif t is ast.Delete:
+            for tgt in node.targets:
+                if isinstance(tgt, ast.Name):
+                    env.vars.pop(tgt.id, None)
+                else:
+                    raise Unsupported('del of a non-name target')
+        elif t is ast.While:
+            n = 0
+            while True:
+                c = yield from self.ev(node.test, env)
+                if is_sym(c) or isinstance(c, (SArr, SOpt)):
+                    raise Unsupported('while loop with a symbolic condition (needs a loop invariant)')
+                if not self.truth(c):
+                    break
+                n += 1
+                if n > 10000:
+                    raise Unsupported('while loop did not terminate within 10000 iterations')
+                try:
+                    yield from self.exec_block(node.body, env)
+                except _Break:
+                    return
+                except _Continue:
+                    continue
+            yield from self.exec_block(node.orelse, env)
         else:
             raise Unsupported('statement %s' % t.__name__)
 
     def exec_try(self, node, env):
         if node.finalbody:
-            raise Unsupported('try/finally')
+            # try/[except]/finally: the finally block runs on every way out
+            inner = ast.Try(body=node.body, handlers=node.handlers, orelse=node.orelse, finalbody=[])
+            try:
+                if node.handlers:
+                    yield from self.exec_try(inner, env)
+                else:
+                    yield from self.exec_block(node.body, env)
+            except (SymRaise, _Return, _Break, _Continue):
+                yield from self.exec_block(node.finalbody, env)
+                raise
+            yield from self.exec_block(node.finalbody, env)
+            return
         try:
             yield from self.exec_block(node.body, env)
         except SymRaise as e:
@@ -1912,9 +1951,10 @@ class Interp(object):
 
     def bind_args(self, f, args, kwargs):
         a = f.node.args
-        if a.posonlyargs or a.kwonlyargs:
-            raise Unsupported('positional-only / keyword-only parameters')
+        if a.posonlyargs:
+            raise Unsupported('positional-only parameters')
         names = [x.arg for x in a.args]
+        konly = [x.arg for x in a.kwonlyargs]
         env = Env(parent=f.env, module=f.module)
         bound = {}
         if len(args) > len(names) and a.vararg is None:
@@ -1925,7 +1965,7 @@ class Interp(object):
             bound[a.vararg.arg] = tuple(args[len(names):])
         extra = {}
         for k, v in kwargs.items():
-            if k in names:
+            if k in names or k in konly:
                 if k in bound:
                     raise SymRaise('TypeError', 'multiple values for argument %s' % k)
                 bound[k] = v
@@ -1942,6 +1982,11 @@ class Interp(object):
                 if j < 0:
                     raise SymRaise('TypeError', 'missing required argument %s' % n)
                 bound[n] = run_to_completion(self.ev(a.defaults[j], Env(parent=f.env, module=f.module)))
+        for n, d in zip(konly, a.kw_defaults):
+            if n not in bound:
+                if d is None:
+                    raise SymRaise('TypeError', 'missing required keyword-only argument %s' % n)
+                bound[n] = run_to_completion(self.ev(d, Env(parent=f.env, module=f.module)))
         env.vars.update(bound)
         return env
 
